@@ -155,6 +155,7 @@ void Sched::begin_run(const Plan &plan, uint64_t step_limit)
     in_run_ = true;
     cur_ = 0;
     steps_ = switches_ = max_conc_ = 0;
+    live_ = 0;
     step_limit_ = step_limit;
     recorded_.clear();
     sched_hash_ = Digest();
@@ -268,6 +269,7 @@ int Sched::spawn(std::function<void()> fn, const char *name)
     if (__tsan_create_fiber) f->tsan = __tsan_create_fiber(0);
     hb_release(&f->sync_spawn);
     fibers_.push_back(f);
+    ++live_;
     uint64_t live = (uint64_t)live_fibers();
     if (live > max_conc_) max_conc_ = live;
     if (RunCtx *ctx = cur_ctx()) { ctx->log.str("spawn"); ctx->log.i64(f->id); }
@@ -331,7 +333,10 @@ void Sched::yield(const char *tag)
 {
     NoRace norace_guard;
     if (!in_run_) return;
-    tick();
+    // the step bound is a liveness bound: it counts scheduling steps while other contexts exist (a long serial
+    // computation with many callbacks is progress, not a stall)
+    if (live_ > 0) tick();
+    else ++steps_;
     if (RunCtx *ctx = cur_ctx())
     {
         if (ctx->trace) ctx->trace->push_back(std::string("  yield ") + tag + " ctx=" + std::to_string(cur_));
@@ -344,6 +349,7 @@ void Sched::fiber_exit()
 {
     Fiber *me = fibers_[cur_];
     me->st = Fiber::DONE;
+    --live_;
     // wake joiners
     for (Fiber *f : fibers_)
     {
